@@ -64,13 +64,13 @@ ASSUMPTIONS = [
     'install of that history',
 ]
 MIN = {
-    'numbering_checks': 1500, 'runN_checks': 3000,
-    'install_after_clean_latest': 100, 'install_after_clean_older': 60,
+    'numbering_checks': 1200, 'runN_checks': 3000,
+    'install_after_clean_latest': 150, 'install_after_clean_older': 50,
     'overwrite_attempts': 40, 'preexisting_run_dirs_compared': 2000,
-    'reinstall_ok': 100, 'clean_removed_run': 500,
+    'reinstall_ok': 150, 'clean_removed_run': 400,
 }
 CASE_TIMEOUT = 120
-NCASES = {'quick': 1000, 'thorough': 12000}
+NCASES = {'quick': 800, 'thorough': 10000}
 
 
 def ncases(tier):
@@ -372,6 +372,11 @@ def run_case(ctx, i, rng):
             if d in preexisting:
                 key = 'C48:install-overwrote-existing-run'
                 why = 'the directory still existed'
+            elif survivors and num <= max(survivors):
+                key = 'C48:number-reused-not-above-surviving-runs'
+                why = (f'run{num} was cleaned at step '
+                       f'{m.cleaned.get(num, ("?",))[0]}; surviving runs '
+                       f'are run{survivors}')
             elif survivors:
                 key = 'C48:number-reused-after-cleaning-latest-run'
                 why = (f'run{num} was cleaned at step '
